@@ -30,7 +30,8 @@ RULE = (
     "sync engine) plus timer templates; oracle: error is an XStateMachineError subclass raised by sync send()/contained "
     "by async, configuration equals the one before the aborted transition, the next event is processed, an `after` "
     "timer of a rolled-back state still fires - exactly once, also when the abort struck in a child's exit list before "
-    "the timed/invoking parent was reached (async: its service keeps exactly one running instance). Non-trivial = fault inside a multi-state transition's entry/exit list or "
+    "the timed/invoking parent was reached (async: its service keeps exactly one running instance); and nothing "
+    "started by a target state that had already been entered when a deeper entry list aborted survives the rollback. Non-trivial = fault inside a multi-state transition's entry/exit list or "
     "a nested expansion or during start(); distinct = distinct (case, fault plan)."
 )
 ASSUMPTIONS = [
@@ -75,7 +76,8 @@ def _abort_case(draw, tier):
         t0 = d.pick([1, delay // 2, delay - 1])
         depth = d.int(0, 2)
         bad_kind = d.pick(["missing-action-transition", "missing-action-entry", "unresolvable-target", "missing-service",
-                           "missing-action-exit", "missing-action-exit", "missing-action-exit-child", "missing-action-exit-child"])
+                           "missing-action-exit", "missing-action-exit", "missing-action-exit-child", "missing-action-exit-child",
+                           "missing-entry-below-timed-target", "missing-entry-below-timed-target"])
         return {"kind": "abort-timer", "engine": engine, "delay": delay, "t0": t0, "depth": depth, "bad": bad_kind}
     prof = gen.profile(**dict(BASE, nested_builtins=False, two_markers=False))
     spec = draw(gen.machine_specs(prof))
@@ -352,6 +354,18 @@ def _timer_spec(case):
              "children": [{"key": "c", "kind": "atomic"}, {"key": "late", "kind": "atomic"}]}
         depth = 0
     services = {}
+    if bad == "missing-entry-below-timed-target":
+        # the *target* of the aborting transition owns a timer (and, async, a service) and has been
+        # entered - its tasks started - when the entry list of its child aborts: after the rollback
+        # the target is not active, so nothing it started may still be running or fire
+        x = {"key": "x", "kind": "compound", "initial": "x1",
+             "after": [[delay, [{"target": None, "actions": [{"k": "user", "name": "tick"}]}]]],
+             "children": [{"key": "x1", "kind": "atomic", "entry": [{"k": "user", "name": "u_missing"}]}]}
+        if case["engine"] == "async":
+            services["svc"] = {"k": "coro", "outcome": "return", "ms": delay, "value": "$call"}
+            x["invoke"] = [{"src": "svc", "id": "iv", "onDone": [{"target": None, "actions": [{"k": "user", "name": "svcdone"}]}]}]
+        s = {"key": "s", "kind": "atomic", "on": [["BAD", [badT]], ["PING", [{"target": None, "actions": []}]]]}
+        depth = 0
     if bad == "missing-action-exit-child":
         # the abort happens in the exit list of the *child*: the timed (and, async, invoking) parent
         # is in the exit set but - depending on the engine - was not reached yet. Whatever was
@@ -403,6 +417,18 @@ def check_abort_timer(case, res: CaseResult):
     if not any(e[0] == "recv" and e[1] == "PING" for e in ping.log) or not any(e[0] == "trans" for e in ping.log):
         res.violate(f"{engine}|interpreter-dead-after-abort|{shape}", {"log": [e[:2] for e in ping.log][:6]})
     last = steps[4]
+    if shape == "missing-entry-below-timed-target":
+        names = [e[1] for o in steps for e in o.log if e[0] == "act"]
+        if "tick" in names or any(e[0] == "recv" and str(e[1]).startswith("after.") for o in steps for e in o.log):
+            res.violate(f"{engine}|timer-of-rolled-back-target-still-fired|{shape}", {"delay": delay, "t0": t0})
+        calls = [e for o in steps for e in o.log if e[0] == "svc" and e[1] == "call"]
+        ended = [e for o in steps[:3] for e in o.log if e[0] == "svc" and e[1] in ("cancelled", "finish")]
+        if len(calls) > len(ended) or "svcdone" in names:
+            res.violate(f"{engine}|service-of-rolled-back-target-left-running|{shape}", {"calls": len(calls), "ended_by_rollback": len(ended)})
+        res.nontrivial = True
+        res.nontrivial_keys = [case_fp(case)]
+        res.classes.append("abort-timer:" + shape)
+        return
     if shape == "missing-action-exit-child":
         ticks = [e[5] for o in steps for e in o.log if e[0] == "act" and e[1] == "tick"]
         if not ticks:
